@@ -36,6 +36,7 @@
 -/
 import CachedModel.LayerB
 import CachedProofs.Properties.C06
+import CachedProofs.Lemmas.EvictId
 
 namespace Cached
 namespace B
@@ -1587,7 +1588,7 @@ theorem visitG_keep (now shard : Nat) (g : State) (p : Nat × Nat) :
   split
   · simp only []
     split
-    · rw [applyEvict_frame]
+    · exact applyEvictId_sweeperKeep _ _
     · rfl
   · rfl
 
@@ -1683,14 +1684,15 @@ theorem evictId_eq (g : State) (id : Nat) :
       | none => g
       | some wk =>
         { g with adm := { g.adm with kw := g.adm.kw.del id, used := g.adm.used - wk.weight },
-                 store := g.store.del wk.key,
+                 store := if (g.store.get? wk.key).map (·.id) = some id then g.store.del wk.key else g.store,
                  stats := { g.stats with
-                   keysDeleted := g.stats.keysDeleted + (if g.store.contains wk.key then 1 else 0),
+                   keysDeleted := g.stats.keysDeleted +
+                     (if (g.store.get? wk.key).map (·.id) = some id then 1 else 0),
                    weightRemoved := (g.stats.weightRemoved + wk.weight.toNat) % u64Mod } } := by
   unfold evictId sweepEvict Adm.delete
   cases h : g.adm.kw.get? id with
   | none => rfl
-  | some wk => simp only [applyEvict_eq]
+  | some wk => simp only [applyEvictId_closed]
 
 theorem amap_contains_del {α β : Type} [DecidableEq α] (m : AMap α β) (a b : α) :
     (m.del a).contains b = if a = b then false else m.contains b := by
@@ -1701,6 +1703,23 @@ theorem amap_contains_del {α β : Type} [DecidableEq α] (m : AMap α β) (a b 
 
 theorem wr_comm (x a b : Nat) : ((x + a) % u64Mod + b) % u64Mod = ((x + b) % u64Mod + a) % u64Mod := by
   unfold u64Mod; omega
+
+/-- The id check of the ticker's hook for `b` sees the same thing before and after the eviction of another id `a`:
+    if that eviction removed `b`'s key, the entry carried `a`, not `b`. -/
+theorem evictMatch_after (st : AMap Nat Entry) {a b : Nat} (ka kb : Nat) (hab : a ≠ b) :
+    (((if (st.get? ka).map (·.id) = some a then st.del ka else st).get? kb).map (·.id) = some b) ↔
+      ((st.get? kb).map (·.id) = some b) := by
+  by_cases hm : (st.get? ka).map (·.id) = some a
+  · rw [if_pos hm]
+    by_cases hk : ka = kb
+    · subst hk
+      rw [AMap.get?_del_same, hm]
+      simp only [Option.map_none, Option.some.injEq]
+      constructor
+      · intro h; cases h
+      · intro h; exact absurd h hab
+    · rw [AMap.get?_del_other _ hk]
+  · rw [if_neg hm]
 
 theorem evictId_comm (g : State) (a b : Nat) : evictId (evictId g a) b = evictId (evictId g b) a := by
   by_cases hab : a = b
@@ -1723,13 +1742,16 @@ theorem evictId_comm (g : State) (a b : Nat) : evictId (evictId g a) b = evictId
         rw [evictId_eq g a, evictId_eq g b, ha, hb]
         simp only []
         rw [evictId_eq, evictId_eq]
+        have ma := evictMatch_after g.store wb.key wa.key hba
+        have mb := evictMatch_after g.store wa.key wb.key hab
         simp only [AMap.get?_del_other _ hab, AMap.get?_del_other _ hba, ha, hb, State.mk.injEq, Adm.mk.injEq,
-          Stats.mk.injEq, amap_contains_del, true_and, and_true]
-        refine ⟨amap_del_comm _ _ _, ⟨by omega, amap_del_comm _ _ _⟩, ?_, wr_comm _ _ _⟩
-        by_cases hk : wa.key = wb.key
-        · simp [hk]
-        · have hk' : ¬ wb.key = wa.key := fun h => hk h.symm
-          simp only [hk, hk', if_false]; omega
+          Stats.mk.injEq, true_and, and_true, ma, mb]
+        refine ⟨?_, ⟨by omega, amap_del_comm _ _ _⟩, ?_, wr_comm _ _ _⟩
+        · by_cases h1 : (g.store.get? wa.key).map (·.id) = some a <;>
+            by_cases h2 : (g.store.get? wb.key).map (·.id) = some b <;>
+            simp only [h1, h2, if_true, if_false]
+          exact amap_del_comm _ _ _
+        · omega
 
 theorem evictId_ttl (g : State) (id : Nat) : (evictId g id).ttl = g.ttl := by
   rw [evictId_eq]; split <;> rfl
